@@ -115,6 +115,7 @@ class SymExec:
         self.notes = []
         self.key_ty = {}
         self.lazy = {}     # key -> value it got when first read without ever being assigned
+        self.pc = []       # path condition: (if-node, branch, cond value) of the enclosing conditionals
 
     # ------------------------------------------------------------------ utilities
     def log(self, kind, **kw):
@@ -639,25 +640,78 @@ class SymExec:
         self.bind_pat(e["pat"], opaque("unwrap", [self._p(v)]))
         return opaque("matches", [self._p(v), Poly.atom(pat_name(e["pat"]))])
 
+    TRUE = Poly.atom("true")
+    FALSE = Poly.atom("false")
+
+    def refine(self, cnode, cval, truth):
+        """Refine the current state with the knowledge that condition `cnode` evaluated to `truth`."""
+        if self.st is None:
+            return
+        k = cnode.get("k")
+        if k == "Unary" and cnode.get("op") == "Not":
+            return self.refine(cnode["e"], None, not truth)
+        if k in ("Path", "Field") and cnode.get("ty") == "bool":
+            lv = self.lvalue(cnode)
+            if lv[0] == "key":
+                self.st[lv[1]] = self.TRUE if truth else self.FALSE
+            return
+        if k == "Binary" and cnode["op"] == "And" and truth:
+            self.refine(cnode["l"], None, True)
+            self.refine(cnode["r"], None, True)
+            return
+        if k == "Binary" and cnode["op"] == "Or" and not truth:
+            self.refine(cnode["l"], None, False)
+            self.refine(cnode["r"], None, False)
+            return
+        if k == "Binary" and ((cnode["op"] == "Eq" and truth) or (cnode["op"] == "Ne" and not truth)) and cnode["l"].get("ty") in ("f64", "usize", "f32"):
+            # `a == b` holds: substitute the plain variable side by the other side's value
+            for va, vb in ((cnode["l"], cnode["r"]), (cnode["r"], cnode["l"])):
+                if va.get("k") == "Path" and va.get("res") == "local":
+                    lv = self.lvalue(va)
+                    if lv[0] == "key":
+                        other = self.eval(vb)
+                        cur = self.st.get(lv[1])
+                        if isinstance(other, Poly) and isinstance(cur, Poly) and not (cur.atoms() & other.atoms() and cur.single_atom() is None):
+                            self.st[lv[1]] = other
+                            self.log("eq_refine", key=lv[1], value=other, node=cnode)
+                            return
+
     def e_If(self, e):
         cond = self.eval(e["cond"])
         if self.st is None:
             return Poly.atom("never")
         sel = self.h.select_if(self, e, cond) if self.h else None
+        if sel is None and isinstance(cond, Poly):
+            if cond == self.TRUE:
+                sel = "then"
+            elif cond == self.FALSE:
+                sel = "else"
         self.log("if", node=e, cond=cond, sel=sel)
         if sel == "then":
-            return self.eval(e["then"])
+            self.pc.append((e, "then", cond))
+            self.refine(e["cond"], cond, True)
+            v = self.eval(e["then"])
+            self.pc.pop()
+            return v
         if sel == "else":
-            if e.get("else") is not None:
-                return self.eval(e["else"])
-            return Poly.atom("unit")
+            self.pc.append((e, "else", cond))
+            self.refine(e["cond"], cond, False)
+            v = self.eval(e["else"]) if e.get("else") is not None else Poly.atom("unit")
+            self.pc.pop()
+            return v
         base = self.st
         self.cond_depth += 1
         self.st = dict(base)
+        self.pc.append((e, "then", cond))
+        self.refine(e["cond"], cond, True)
         v1 = self.eval(e["then"])
+        self.pc.pop()
         s1 = self.st
         self.st = dict(base)
+        self.pc.append((e, "else", cond))
+        self.refine(e["cond"], cond, False)
         v2 = self.eval(e["else"]) if e.get("else") is not None else Poly.atom("unit")
+        self.pc.pop()
         s2 = self.st
         self.cond_depth -= 1
         self.st = self.join_states([s1, s2])
@@ -719,7 +773,7 @@ class SymExec:
     def e_Break(self, e):
         v = self.eval(e["e"]) if e.get("e") is not None else None
         self.exits.append(("break", e.get("target"), self.st, v))
-        self.log("break", target=e.get("target"), node=e)
+        self.log("break", target=e.get("target"), node=e, state=self.st, pc=list(self.pc))
         self.st = None
         return Poly.atom("never")
 
@@ -732,7 +786,7 @@ class SymExec:
     def e_Return(self, e):
         v = self.eval(e["e"]) if e.get("e") is not None else None
         self.exits.append(("return", None, self.st, v))
-        self.log("return", node=e, value=v)
+        self.log("return", node=e, value=v, state=self.st, pc=list(self.pc))
         self.st = None
         return Poly.atom("never")
 
@@ -859,6 +913,7 @@ class SymExec:
             self.st = dict(pre)
             for k, v in hav.items():
                 self.st[k] = v
+            fixed = (self.h.head_override(self, node, roots) if self.h else None) or set()
             head = dict(self.st)
             self._last_head = head
             body_eval()
@@ -867,7 +922,7 @@ class SymExec:
             new = []
             if L is not None:
                 for k in set(L) | set(head):
-                    if k in hav:
+                    if k in hav or k in fixed:
                         continue
                     a, b = head.get(k), L.get(k)
                     if a is None and b is not None:
@@ -1299,6 +1354,11 @@ class Hooks:
         return None
 
     def restore(self, snap):
+        return None
+
+    def head_override(self, sx, node, roots):
+        """called at every (re)start of a loop body after the head state is installed; may
+        overwrite keys with rule-chosen symbols and returns the set of keys it fixed"""
         return None
 
     def select_if(self, sx, node, cond):
